@@ -50,14 +50,24 @@ impl Prop for C03 {
      hash of the case JSON".into()
   }
   fn legs(&self, _tier: Tier) -> Vec<Leg<TreeCase>> {
-    vec![Leg {
-      name: "ascii trees",
-      source: Cases::Generated(
-        Box::new(|| tree(GenCfg::positional()).prop_map(|spec| TreeCase { spec }).boxed()),
-        800_000,
-        10_000_000,
-      ),
-    }]
+    vec![
+      Leg {
+        name: "ascii trees",
+        source: Cases::Generated(
+          Box::new(|| tree(GenCfg::positional()).prop_map(|spec| TreeCase { spec }).boxed()),
+          800_000,
+          10_000_000,
+        ),
+      },
+      Leg {
+        name: "larger ascii trees (depth<=4, <=6 children, <=30 tokens)",
+        source: Cases::Generated(
+          Box::new(|| tree(GenCfg::positional_large()).prop_map(|spec| TreeCase { spec }).boxed()),
+          50000,
+          700000,
+        ),
+      },
+    ]
   }
   fn check(&self, case: &TreeCase) -> CheckResult {
     let spec = &case.spec;
